@@ -31,8 +31,8 @@ S == INSTANCE Student
 Cases == JsonDeserialize(IOEnv.VERIF_CASES)
 NCases == Len(Cases)
 
-VARIABLES i, bad, drift, skipped
-tvars == <<row, lev, ref, oth, cells, out, pc, i, bad, drift, skipped>>
+VARIABLES i, bad, drift, skipped, free
+tvars == <<row, lev, ref, oth, cells, out, pc, i, bad, drift, skipped, free>>
 
 Num(t, n) == IF t = 0 THEN n ELSE IF t = 1 THEN NaN ELSE IF t = 2 THEN PInf ELSE NInf
 CellsOf(s) == [b \in 1 .. Len(s) |-> <<Num(s[b][1], s[b][2]), Num(s[b][3], s[b][4])>>]
@@ -47,8 +47,8 @@ Idx(c) == {<<d, b>> : d \in 1 .. Len(c.oth), b \in 1 .. Len(c.ref)}
 Wrong(o, e, yes, no) == (e = yes /\ ~o) \/ (e = no /\ o)
 
 StatMatches(e, o, sg) ==
-   /\ e.k = "rat" => \/ o[1] = 0 /\ o[2] = e.n /\ o[3] = e.d
-                     \/ o[1] = 3 /\ e.d > MaxDen      \* not recorded: no small rational near the float
+   /\ e.k = "rat" => IF e.d <= MaxDen THEN o[1] = 0 /\ o[2] = e.n /\ o[3] = e.d
+                     ELSE o[1] \in {0, 3}       \* the recorder only recovers rationals with a small denominator
    /\ e.k = "inf" => o[1] = 1
    /\ e.k = "nan" => o[1] = 2
    /\ sg = "pos" => o[4] = 1
@@ -74,12 +74,13 @@ Drifts(c, e) ==
    {<<c.id, "tstud", p[1], p[2], e.st[p[1]][p[2]]>> :
        p \in {q \in Idx(c) : ~StatMatches(e.st[q[1]][q[2]], c.ts[q[1]][q[2]], e.sg[q[1]][q[2]])}}
 
-(* number of judgements not made on this case *)
-Unjudged(c, e) ==
-   Cardinality({p \in Idx(c) : e.cls[p[1]][p[2]] \in {"band", "free"}})
-   + Cardinality({<<p, j>> \in Idx(c) \X (1 .. S!NLev) : e.pv[p[1]][p[2]][j] \in {"band", "free"}})
+(* judgements not made on this case because of kind k: "band" (statistic inside
+   a critical-value band) or "free" (the statement is silent) *)
+Unjudged(c, e, k) ==
+   Cardinality({p \in Idx(c) : e.cls[p[1]][p[2]] = k})
+   + Cardinality({<<p, j>> \in Idx(c) \X (1 .. S!NLev) : e.pv[p[1]][p[2]][j] = k})
 
-TInit == /\ i = 1 /\ bad = {} /\ drift = {} /\ skipped = 0
+TInit == /\ i = 1 /\ bad = {} /\ drift = {} /\ skipped = 0 /\ free = 0
          /\ row = 1 /\ lev = 1 /\ ref = <<>> /\ oth = <<>> /\ cells = <<>> /\ out = S!NoOut /\ pc = "todo"
 TStep == /\ i <= NCases
          /\ i' = i + 1
@@ -88,9 +89,10 @@ TStep == /\ i <= NCases
          /\ out' = Exp(Cases[i]) /\ pc' = "done"
          /\ bad' = bad \cup Mismatches(Cases[i], out')          \* out' is a value by now: computed once
          /\ drift' = drift \cup Drifts(Cases[i], out')
-         /\ skipped' = skipped + Unjudged(Cases[i], out')
+         /\ skipped' = skipped + Unjudged(Cases[i], out', "band")
+         /\ free' = free + Unjudged(Cases[i], out', "free")
          /\ (i = NCases => TLCSet(1, [bad |-> bad', drift |-> drift', skipped |-> skipped',
-                                      last |-> out']))
+                                      free |-> free', last |-> out']))
 TSpec == TInit /\ [][TStep]_tvars
 
 (* the invariants of the property-level spec are evaluated on every consumed case *)
